@@ -36,6 +36,12 @@ def gen(rng, tier):
     spec = C.gen_edit(rng, C.maybe_from_json(rng, C.maybe_history(rng, C.forward_spec(rng, tier, focus), 0.25)))
     if spec.get("edit") is not None and rng.random() < 0.5:
         spec["edit"] = sorted(set(spec["edit"]) | {0})
+    if rng.random() < 0.06:
+        # a non-default error_tol argument (documented as a guard against numerical error) and tasks that end a hair above zero
+        spec["cfg"]["error_tol"] = rng.choice([0.01, 0.05])
+        for t_ in spec["model"]["tasks"]:
+            if rng.random() < 0.5:
+                t_["work"] = t_["work"] + rng.choice([0.005, 0.003])
     if spec.get("edit") is None and spec.get("history") is None and rng.random() < 0.12:
         ab = spec["cfg"].get("absence") or G.gen_absence(rng, 12, rng.randint(2, 5))
         if rng.random() < 0.4 and ab:
